@@ -1,6 +1,7 @@
 package updates
 
 import (
+	"math"
 	"reflect"
 
 	"github.com/ovn-org/libovsdb/ovsdb"
@@ -297,4 +298,36 @@ func mutateModulo(current, value interface{}) interface{} {
 		return is
 	}
 	return current
+}
+
+// outOfRange tells whether an arithmetic mutation left the range of the
+// column's type (RFC 7047 "range error"): an integer operation that
+// overflowed, or a real operation that yielded NaN or an infinity.
+func outOfRange(current interface{}, mutator ovsdb.Mutator, value, result interface{}) bool {
+	switch c := current.(type) {
+	case int:
+		v, ok := value.(int)
+		if !ok {
+			return false
+		}
+		switch mutator {
+		case ovsdb.MutateOperationAdd:
+			return (v > 0 && c > math.MaxInt-v) || (v < 0 && c < math.MinInt-v)
+		case ovsdb.MutateOperationSubtract:
+			return (v < 0 && c > math.MaxInt+v) || (v > 0 && c < math.MinInt+v)
+		case ovsdb.MutateOperationMultiply:
+			if c == 0 || v == 0 {
+				return false
+			}
+			r := c * v
+			return r/v != c || (c == -1 && v == math.MinInt) || (v == -1 && c == math.MinInt)
+		case ovsdb.MutateOperationDivide:
+			return v == -1 && c == math.MinInt
+		}
+	case float64:
+		if r, ok := result.(float64); ok {
+			return math.IsNaN(r) || math.IsInf(r, 0)
+		}
+	}
+	return false
 }
